@@ -335,3 +335,5 @@ def run(chk, facts, tier):
     one_printer(chk, facts)
     from rules import c05_tokens
     c05_tokens.check(chk, facts)
+    from rules import c05_policy_print
+    c05_policy_print.check(chk, facts)
